@@ -1,3 +1,4 @@
+\* 3 threads racing to create one aggregate (add_with_context), then commands / reads
 CONSTANTS
   t1 = t1
   t2 = t2
